@@ -246,11 +246,13 @@ def run(tier):
     ck.rule("E11.trafo-vertex-map", "Trafo::Standard::Evaluator: after prepare(cell), map_point(reference vertex k) is exactly the mesh vertex index_set<dim,0>(cell,k), coordinate by coordinate (coefficient definitions substituted; reference vertices from Shape::ReferenceCell)", 83)
     ck.rule("E11.chain-rule", "ParametricEvalHelper: value = ref_value; grad_j = sum_k ref_grad_k * jac_inv(k,j); hess_ab = sum_kl ref_hess_kl jac_inv(k,a) jac_inv(l,b) + sum_k ref_grad_k hess_inv(k,a,b), for every slot below max_local_dofs; TrafoEvalHelper::calc_hess_inv(k,a,b) = - sum_c jac_inv(k,c) sum_lm hess_ten(c,l,m) jac_inv(l,a) jac_inv(m,b) (operands and index order)", 43)
 
+    ck.rule("E13.iso-chart-projection", "Trafo::Isoparam::Evaluator<degree>::prepare(cell) of the hypercube shapes, degrees 1-3, in the scenario 'every sub-entity has a chart': (a) the corners of the coefficient lattice hold the mesh vertices index_set<d,0>(cell,k) and map_point(reference vertex k) returns exactly that vertex; (b) every lattice point in the relative interior of the local sub-entity (e,i) - located through Shape's FaceIndexMapping<shape,e,0> vertex table and the corner positions, point = corner(v_0) + sum_m t_m (corner(v_2^m) - corner(v_0)) / degree, t_m = 1..degree-1 - ends as chart->project(.) with the chart taken from the chart vector of dimension e at the GLOBAL entity index_set<d,e>(cell,i) (the cell itself: at the cell index), all of its coordinates from one projection; (c) for edges the projected argument is the linear interpolation at t/degree between the two vertices of THAT edge in the edge's vertex order. A lattice point left unprojected (or projected onto a neighbour's chart) lies on the chord while the facet trafo / the neighbouring cell put it on the chart: affine functions are no longer reproduced and congruent cells get different volumes", 69)
     ck.rule("E13.is-on-ref", "InverseMappingHelper<Shape>::is_on_ref(p, tol) (the accept test of InverseMapping::unmap_point): the accepted set, extracted as a conjunction of affine inequalities in p and tol, contains the closed reference cell of Shape::ReferenceCell for every tol >= 0 (every reference vertex satisfies every inequality; the set is convex) and only grows with tol (no inequality gets tighter when tol increases); otherwise points on a facet/vertex of a cell are dropped by unmap_point", 12)
 
     ck.rule("E11.functional-normalisation", "non-parametric Rannacher-Turek / Q1TBNP evaluators, _build_coeff_matrix(): every node functional row of the nodal matrix is a NORMALISED quadrature sum  (sum_k w_k m(x_k)) / (sum_k w_k): the normaliser is the sum of exactly the weights (facet / cell Jacobian determinants at the Gauss points) that multiply the integrand terms, each once; otherwise the functional of the constant is not 1 and the basis obtained by inverting the nodal matrix is not dual to the element's integral-mean functionals on cells whose facets are not parallelograms", 24)
     ck.rule("E11.derivative-dof-scaling", "Hermite-3 / Bogner-Fox-Schmit: the reference gradient of every basis function at every reference vertex v is either 0 or row d of the trafo Jacobian matrix evaluated at v (coefficients as defined by prepare()): then and only then the real-coordinate gradient J^-T grad_ref equals e_d, i.e. the function is dual to the derivative functional d/dx_d at that vertex; a scaling by the determinant / volume measure loses the sign and mixes directions", 5)
 
+    ck.rule("E11.nodal-duality", "Argyris (evaluator builds a nodal matrix and inverts it): column s of the nodal matrix filled by Evaluator::prepare() is the element's NODE FUNCTIONAL of local dof s (NodeFunctional<Space, dim> of the entity the DOF mapping assigns s to, ordinal j) applied to the monomial basis m_k of the evaluation lists: node_mat(k,s) = N_s(m_k) with N_s(f) = sum_alpha c_alpha d^alpha f(x_s) extracted from NodeFunctional::operator() and m_k from eval_values, and the coefficient matrix is set_inverse(node_mat). Decided exactly (rational arithmetic) on a counter-clockwise right triangle (0,0),(4,0),(0,3) AND its mirror image (clockwise, negative Jacobian determinant), for both orientations of every edge relative to the global edge (SubIndexMapping code); then N_s(phi_l) = (coeff * node_mat)(l,s) = delta_ls. A normal that follows the cell's handedness instead of the global edge tangent gives N_edge(phi_edge) = -1 on clockwise cells", 18)
     ck.rule("E1.param-config-closure", "ParametricEvaluator::operator()<space_cfg, trafo_cfg> for every configuration the evaluator's ConfigTraits produce (all capabilities, and value / grad / hess requested alone): every reference datum (ref_value, ref_grad, ref_hess) that the enabled transformation code reads from the evaluation data is written by an eval_ref_* call enabled under the same configuration, every trafo datum read is contained in trafo_cfg (with the trafo's own closure), and every requested output is written; otherwise uninitialised (NaN-initialised) reference data enter the result for exactly those assemblies that request that single capability", 101)
 
     facts = featlib.extract("tu/c15_spaces.cpp", files=FILES)
@@ -266,6 +268,7 @@ def run(tier):
     covered, not_covered = [], []
     for fx in all_facts:
         analyse(ck, fx, tier, covered, not_covered, primary=(fx is facts))
+    check_iso_projection(ck, tier, RefCell(facts))
 
     ck.note("covered (family/shape [lists]): " + "; ".join(covered))
     ck.note("not covered: " + ("; ".join(not_covered) if not_covered else "-"))
@@ -429,6 +432,7 @@ def analyse(ck, facts, tier, covered, not_covered, primary=True):
         return not problems
 
     values = {}   # (fam, sh) -> {slot: poly} of the parametric value lists
+    np_values = {}   # the same for the non-parametric evaluators (values as polynomials in the image point)
     symslots = {}
     for (fam, sh), meths in sorted(classes.items()):
         inst = "%s/%s" % (fam, sh)
@@ -472,6 +476,8 @@ def analyse(ck, facts, tier, covered, not_covered, primary=True):
         fv = meths[names[0]][0]
         check_complete(inst, fv, vals, fields[0], n, dim, 0)
         value_of = {s: v for (s, fl, idx), v in vals.items() if fl == fields[0]}
+        if kind != "parametric":
+            np_values[(fam, sh)] = (value_of, fv, X)
         if kind == "parametric":
             values[(fam, sh)] = (value_of, fv, X)
             symslots[(fam, sh)] = sorted({s for s in value_of if not isinstance(s, int)})
@@ -666,6 +672,8 @@ def analyse(ck, facts, tier, covered, not_covered, primary=True):
     # ---- run-time coefficient set-up: normalised functionals, derivative dof scaling ---------------------------------
     check_nodal_normalisation(ck, facts, classes, tag)
     check_derivative_scaling(ck, facts, refcell, classes, values, tag)
+    if primary:
+        check_nodal_duality(ck, facts, refcell, classes, np_values, layouts, tag)
 
 
 def decode_layout(idx, dim):
@@ -943,6 +951,183 @@ def orientation_by_cases(facts, fp, sh, sims, sim_dim, syms, first_of, nper, slo
                 problems.append("prepare() assigns %s only for the orientation codes %s; for the codes %s the slot keeps whatever the previously prepared cell (or the member initialiser) left: the slot table is not a function of the current cell's orientation" % (
                     slot_str(s), w, [c for c in all_codes if c not in w]))
     return problems, unknown
+
+
+ISO_FILES = "|".join([F("kernel/trafo/"), F("kernel/shape.hpp"), F("kernel/util/tiny_algebra.hpp"), F("kernel/geometry/intern/face_index_mapping.hpp"), "/verif/tu/c15_"])
+
+
+class _IsoEx(SymEx):
+    """scenario 'the entity has a chart': a chart pointer fetched from a chart vector compares unequal to nullptr"""
+
+    def binary(self, n, env, fn):
+        if n["op"] in ("==", "!="):
+            a0, b0 = self.eval(n["lhs"], env, fn), self.eval(n["rhs"], env, fn)
+            for x, o in ((a0, b0), (b0, a0)):
+                p = self.ptr_of(x)
+                base = p.base if p is not None else (x if isinstance(x, Loc) else None)
+                if base is not None and loc_name(base).startswith("CHART:") and isinstance(o, Poly) and o.const_value() == 0:
+                    return Poly.const(1 if n["op"] == "!=" else 0)
+        return super().binary(n, env, fn)
+
+    def truth(self, v):
+        x = v
+        p = self.ptr_of(x)
+        base = p.base if p is not None else (x if isinstance(x, Loc) else None)
+        if base is not None and loc_name(base).startswith("CHART:"):
+            return True       # `if(chart)`
+        return super().truth(v)
+
+
+def check_iso_projection(ck, tier, refcell):
+    rule = "E13.iso-chart-projection"
+    try:
+        facts = featlib.extract("tu/c15_isoparam.cpp", files=ISO_FILES)
+    except (featlib.AnalysisBroken, OSError) as e:
+        ck.incomplete(rule, "driver tu/c15_isoparam.cpp: %s" % e)
+        return
+    ck.tu(facts)
+    for e in facts.errors_outside_repo():
+        ck.incomplete(rule, "driver tu/c15_isoparam.cpp no longer matches the API: %s:%d %s" % (e["file"], e["line"], e["msg"]))
+    for e in facts.errors_in_repo():
+        ck.ob(rule, "E0/%s/%s" % (rel(e["file"]), re.sub(r"\d+", "N", e["msg"])[:80]), False, "front-end error %s:%d %s" % (rel(e["file"]), e["line"], e["msg"]), e["file"], e["line"])
+    classes = {}
+    for f in facts.functions:
+        m = re.match(r"^FEAT::Trafo::Isoparam::Evaluator<FEAT::Trafo::Isoparam::Mapping<.*?, (\d)>, FEAT::Trafo::StandardEvalPolicy<FEAT::Shape::Hypercube<(\d)>, \w+, (\d)>, (\d), FEAT::Shape::Hypercube<(\d)>>$", f.cls)
+        if m and f.tk != "pattern" and m.group(2) == m.group(5):
+            classes.setdefault((int(m.group(2)), int(m.group(3)), int(m.group(4))), {}).setdefault(f.name, []).append(f)
+    if not classes:
+        ck.incomplete(rule, "no Trafo::Isoparam::Evaluator instantiation found in the driver facts")
+        return
+    for (d, wd, n), meths in sorted(classes.items()):
+        inst = "Isoparam/Hypercube<%d>/world%d/degree%d" % (d, wd, n)
+        sh = "Hypercube<%d>" % d
+        ctor = [g for g in meths.get("Evaluator", []) if g.d.get("ctor")]
+        if not ctor or "prepare" not in meths or "map_point" not in meths:
+            ck.incomplete(rule, "%s: constructor / prepare / map_point not instantiated" % inst)
+            continue
+        projs = {}
+
+        def model(sx, node, callee, this_loc, args, fn):
+            nm = callee.rsplit("::", 1)[-1]
+            if nm == "get_charts_vector" and len(args) == 1:
+                return Loc("CHARTS%d" % sx.num(args[0]).as_int())
+            if nm in ("at", "operator[]") and this_loc is not None and len(args) == 1:
+                src = this_loc
+                for k in range(len(this_loc.path), -1, -1):
+                    l2 = sx.links.get((this_loc.root, this_loc.path[:k]))
+                    if l2 is not None:
+                        src = Loc(l2.root, l2.path + this_loc.path[k:])
+                        break
+                if loc_name(src).startswith("CHARTS"):
+                    return Loc("CHART:%s:%s" % (loc_name(src)[6:], sx.index_elem(args[0])))
+            if nm == "project" and this_loc is not None and loc_name(this_loc).startswith("CHART:") and len(args) == 1 and isinstance(args[0], Loc):
+                comps = {}
+                for c in range(wd):
+                    comps[c] = sx.num(args[0].child(c))
+                name = "PROJ%d" % len(projs)
+                projs[name] = (loc_name(Loc(this_loc.root)), comps)
+                return Loc(name)
+            return accessor_model(sx, node, callee, this_loc, args, fn)
+        try:
+            sx = _IsoEx([facts], opaque=model, no_inline=r"::get_charts_vector$")
+            sx.run(ctor[0], args=[Loc("trafo")])
+            fp = meths["prepare"][0]
+            sx.run(fp, args=[Loc("cell")])
+            verts = refcell.vertices(sh)
+            # the coefficient array: the member holding the lattice (found through the corner links to the mesh vertices)
+            def coeff(idx, c):
+                return sx.num(Loc("this", (arr,) + tuple(idx) + (c,)))
+            arr = None
+            for (pth, src) in list(sx.links.root("this").items()):
+                if len(pth) == d + 1 and all(isinstance(x, int) for x in pth[1:]) and "get_vertex_set" in loc_name(src):
+                    arr = pth[0]
+            if arr is None:
+                raise NotClosedForm("no member array whose corner entries are copies of mesh vertices found")
+            corner_of = {}
+            problems = []
+            for idx in itertools.product((0, n), repeat=d):
+                nm = coeff(idx, 0).single_symbol() or ""
+                m = re.match(r"^(.*get_vertex_set)\[(.*get_index_set<%d, 0>)\[cell\]\[(\d+)\]\]\[0\]$" % d, nm)
+                if not m:
+                    raise NotClosedForm("lattice corner %s holds %s, not a mesh vertex of the cell" % (list(idx), nm or coeff(idx, 0)))
+                corner_of[int(m.group(3))] = idx
+                vs, ixs = m.group(1), m.group(2)
+            if sorted(corner_of) != list(range(2 ** d)):
+                problems.append("the %d lattice corners hold the vertices %s of the cell" % (2 ** d, sorted(corner_of)))
+            # (a) map_point(reference vertex k) = vertex k
+            fm = meths["map_point"][0]
+            for k, rv in enumerate(verts):
+                if k not in corner_of:
+                    continue
+                dom = sx.new_temp("DOM")
+                for i2, x in enumerate(rv):
+                    sx.store[(dom.root, (i2,))] = Poly.const(x)
+                img = Loc("IMG%d" % k)
+                sx.run(fm, args=[img, dom])
+                for c in range(wd):
+                    got = sx.num(img.child(c))
+                    want = "%s[%s[cell][%d]][%d]" % (vs, ixs, k, c)
+                    if got.single_symbol() != want:
+                        problems.append("map_point(reference vertex %d = %s)[%d] = %s, expected %s" % (k, tuple(map(str, rv)), c, got, want))
+        except NotClosedForm as e:
+            ck.incomplete(rule, "%s: %s" % (inst, e))
+            continue
+        ck.ob(rule, inst + "/corners", not problems, "; ".join(problems[:2]) if problems else "lattice corners = mesh vertices, map_point(reference vertex k) = vertex k", fp.file, fp.line)
+        if problems or n < 2:
+            continue
+        V = lambda k, c: Poly.sym("%s[%s[cell][%d]][%d]" % (vs, ixs, k, c))
+        for e in range(1, d + 1):
+            try:
+                ents = refcell.face_verts(sh, e)
+            except NotClosedForm as ex:
+                ck.incomplete(rule, "%s: %s" % (inst, ex))
+                break
+            for i, ev in enumerate(ents):
+                key = "%s/entity%d.%d" % (inst, e, i)
+                c0 = corner_of[ev[0]]
+                dirs = [tuple((b - a) // n for a, b in zip(c0, corner_of[ev[2 ** m]])) for m in range(e)]
+                want_chart = "CHART:%d:%s" % (e, "#cell" if e == d else "#%s" % re.sub(r"get_index_set<%d, 0>$" % d, "get_index_set<%d, %d>" % (d, e), ixs) + "[cell][%d]" % i)
+                problems, unknown = [], []
+                npts = 0
+                for t in itertools.product(range(1, n), repeat=e):
+                    idx = tuple(c0[a] + sum(t[m] * dirs[m][a] for m in range(e)) for a in range(d))
+                    npts += 1
+                    ids = set()
+                    for c in range(wd):
+                        try:
+                            v = coeff(idx, c)
+                        except NotClosedForm as ex:
+                            unknown.append("lattice point %s: %s" % (list(idx), ex))
+                            continue
+                        mm = re.match(r"^(PROJ\d+)\[(\d+)\]$", v.single_symbol() or "")
+                        if not mm or int(mm.group(2)) != c:
+                            problems.append("lattice point %s (point %s of local %s %d) coordinate %d is %s: not the projection onto the entity's chart" % (
+                                list(idx), list(t), {1: "edge", 2: "quad", 3: "hexa"}[e], i, c, str(v)[:160]))
+                            continue
+                        ids.add(mm.group(1))
+                    if len(ids) > 1:
+                        problems.append("lattice point %s takes its coordinates from different projections %s" % (list(idx), sorted(ids)))
+                    for pid in ids:
+                        chart, argc = projs[pid]
+                        if chart != want_chart:
+                            problems.append("lattice point %s (local %s %d) is projected onto %s, the entity's chart is %s" % (list(idx), {1: "edge", 2: "quad", 3: "hexa"}[e], i, chart, want_chart))
+                        elif e == 1:
+                            al = Fraction(t[0], n)
+                            for c in range(wd):
+                                wantp = V(ev[0], c) * (1 - al) + V(ev[1], c) * al
+                                if argc[c] != wantp:
+                                    problems.append("edge %d point %d: the projected point is %s, the linear interpolation between the edge's vertices at %s is %s" % (i, t[0], argc[c], al, wantp))
+                                    break
+                _finish15(ck, rule, key, problems, unknown, "%d interior lattice points = project_%s(...)" % (npts, want_chart), fp.file, fp.line)
+
+
+def _finish15(ck, rule, key, problems, unknown, okmsg, file, line):
+    if problems:
+        ck.ob(rule, key, False, "; ".join(problems[:3]), file, line)
+    elif unknown:
+        ck.incomplete(rule, "%s: %s" % (key, "; ".join(unknown[:3])))
+    else:
+        ck.ob(rule, key, True, okmsg, file, line)
 
 
 def tensor_entries(outs, rank):
@@ -1334,6 +1519,177 @@ def check_derivative_scaling(ck, facts, refcell, classes, values, tag):
             ck.incomplete("E11.derivative-dof-scaling", "%s: %s" % (key, "; ".join(unknown[:3])))
         else:
             ck.ob("E11.derivative-dof-scaling", key, True, "%d (function, vertex) pairs with a non-zero reference gradient: each is a row of the Jacobian at that vertex" % nderiv, fp.file, fp.line)
+
+
+def check_nodal_duality(ck, facts, refcell, classes, np_values, layouts, tag):
+    rule = "E11.nodal-duality"
+    fam, sh = "Argyris", "Simplex<2>"
+    inst = "%s/%s" % (fam, sh)
+    meths = classes.get((fam, sh))
+    if not meths or "prepare" not in meths or (fam, sh) not in np_values or (fam, sh) not in layouts:
+        ck.incomplete(rule, "%s%s: evaluator prepare() / value list / DOF layout not established" % (tag, inst))
+        return
+    try:
+        facts_n = featlib.extract("tu/c15_argyris.cpp", files=FILES)
+    except (featlib.AnalysisBroken, OSError) as e:
+        ck.incomplete(rule, "driver tu/c15_argyris.cpp: %s" % e)
+        return
+    ck.tu(facts_n)
+    for e in facts_n.errors_outside_repo():
+        ck.incomplete(rule, "driver tu/c15_argyris.cpp no longer matches the API: %s:%d %s" % (e["file"], e["line"], e["msg"]))
+    nf = {}
+    for f in facts_n.functions:
+        m = re.match(r"^FEAT::Space::Argyris::NodeFunctional<.*, (\d), \w+>$", f.cls)
+        if m and f.tk != "pattern" and f.name == "operator()":
+            nf[int(m.group(1))] = f
+    layout = layouts[(fam, sh)]
+    value_of, fv, X = np_values[(fam, sh)]
+    fp = meths["prepare"][0]
+    n = len(layout)
+    # --- monomial basis of the evaluation lists: value(phi_l) = sum_k coeff(l,k) m_k(x - barycentre) ----------------
+    try:
+        cname = None
+        for sname in sorted(value_of[0].symbols()):
+            mm = re.match(r"^this\.(\w+)\[0\]\[0\]$", sname)
+            if mm:
+                cname = mm.group(1)
+        if cname is None:
+            raise NotClosedForm("the value list is not of the form sum_k coeff(l,k) * m_k")
+        mono = []
+        for k in range(n):
+            mk = value_of[0].diff("this.%s[0][%d]" % (cname, k))
+            for l in (1, n - 1):
+                if value_of[l].diff("this.%s[%d][%d]" % (cname, l, k)) != mk:
+                    raise NotClosedForm("the value list uses different monomials for different basis functions")
+            if mk.is_zero() or any(x.startswith("this." + cname) for x in mk.symbols()):
+                raise NotClosedForm("basis function values are not linear in the coefficient matrix")
+            mono.append(mk)
+        bsyms = sorted({x for mk in mono for x in mk.symbols() if x not in X})
+    except (NotClosedForm, KeyError) as e:
+        ck.incomplete(rule, "%s%s: %s" % (tag, inst, e))
+        return
+    everts = refcell.face_verts(sh, 1)
+
+    def functional(dim, geom):
+        """linear form of NodeFunctional<dim>::operator() on concrete geometry: -> [ (point, {symbol: coefficient}) per ordinal ]"""
+        f = nf.get(dim)
+        if f is None:
+            raise NotClosedForm("Argyris::NodeFunctional<%d>::operator() not instantiated" % dim)
+        pts = []
+
+        def model(sx, node, callee, this_loc, args, fn):
+            nm = callee.rsplit("::", 1)[-1]
+            if nm == "operator()" and "FEAT::Trafo::" in callee and len(args) == 2 and isinstance(args[0], Loc):
+                t = [sx.num(args[1].child(i)).const_value() if isinstance(args[1], Loc) else None for i in range(dim)]
+                img, jac = geom(t)
+                for i, v in enumerate(img):
+                    sx.store[(args[0].root, args[0].path + ("img_point", i))] = Poly.const(v)
+                for i, row in enumerate(jac):
+                    for j, v in enumerate(row):
+                        sx.store[(args[0].root, args[0].path + ("jac_mat", i, j))] = Poly.const(v)
+                return args[0]
+            if nm in ("value", "gradient", "hessian") and "Analytic::" in callee and len(args) == 1:
+                pts.append(tuple(sx.num(args[0].child(i)).const_value() for i in range(2)) if isinstance(args[0], Loc) else None)
+                return Loc({"value": "FV", "gradient": "FG", "hessian": "FH"}[nm])
+            return accessor_model(sx, node, callee, this_loc, args, fn)
+        sx = SymEx([facts_n, facts], opaque=model, no_inline=r"^FEAT::Trafo::.*::operator\(\)$")
+        sx.run(f, args=[Loc("ND"), Loc("FUN")])
+        if not pts or any(p is None or p != pts[0] for p in pts):
+            raise NotClosedForm("NodeFunctional<%d> evaluates the function at several / unknown points %s" % (dim, pts[:3]))
+        out = []
+        ents = sx.outputs("ND")
+        for j in range(len(ents)):
+            v = ents.get((j,))
+            if not isinstance(v, Poly) or v.degree() > 1 or v.t.get((), 0) != 0:
+                raise NotClosedForm("node_data[%d] = %s is not a linear form in the function's value / derivatives" % (j, v))
+            out.append((pts[0], {mon[0][0]: cf for mon, cf in v.t.items()}))
+        return out
+
+    def apply(form, m, bary):
+        """N(m) for the polynomial m in X (barycentre symbols substituted)"""
+        pt, coef = form
+        m = m.subs(dict(zip(bsyms, bary))) if bsyms else m
+        at = dict(zip(X, pt))
+        tot = Fraction(0)
+        for sname, cf in coef.items():
+            mm = re.match(r"^F([VGH])((?:\[\d\])*)$", sname)
+            if not mm:
+                raise NotClosedForm("node functional depends on %s" % sname)
+            d = m
+            for a in re.findall(r"\[(\d)\]", mm.group(2)):
+                d = d.diff(X[int(a)])
+            v = d.subs(at).const_value()
+            if v is None:
+                raise NotClosedForm("monomial does not evaluate to a number at the functional's point")
+            tot += cf * v
+        return tot
+
+    triangles = [("ccw", [(Fraction(0), Fraction(0)), (Fraction(4), Fraction(0)), (Fraction(0), Fraction(3))]),
+                 ("cw", [(Fraction(0), Fraction(0)), (Fraction(-4), Fraction(0)), (Fraction(0), Fraction(3))])]
+    for tname, V in triangles:
+        for code in (0, 1):
+            inv = []
+
+            def model(sx, node, callee, this_loc, args, fn):
+                base = symex.strip_targs(callee)
+                nm = callee.rsplit("::", 1)[-1]
+                if node["k"] in ("Construct", "TempObj") and base == "FEAT::Geometry::Intern::SubIndexMapping::SubIndexMapping":
+                    return this_loc
+                if base == "FEAT::Geometry::Intern::SubIndexMapping::map" and len(args) == 2:
+                    j = sx.num(args[1]).as_int()
+                    return Poly.const(j if code == 0 else 1 - j)
+                if nm == "map_point" and len(args) == 2 and isinstance(args[0], Loc) and isinstance(args[1], Loc):
+                    d0, d1 = (sx.num(args[1].child(i)).const_value() for i in range(2))
+                    if d0 is None or d1 is None:
+                        raise NotClosedForm("map_point at a non-constant reference point")
+                    for i in range(2):
+                        sx.write(args[0].child(i), Poly.const(V[0][i] + d0 * (V[1][i] - V[0][i]) + d1 * (V[2][i] - V[0][i])))
+                    return args[0]
+                if nm == "set_inverse" and this_loc is not None and len(args) == 1 and isinstance(args[0], Loc):
+                    inv.append((loc_name(this_loc), {p2: v for p2, v in sx.sub_entries(args[0])}))
+                    return this_loc
+                return accessor_model(sx, node, callee, this_loc, args, fn)
+            try:
+                sx = SymEx([facts], opaque=model, no_inline=r"::(map_point|set_inverse)$")
+                sx.run(fp, args=[Loc("trafo_eval")])
+                if len(inv) != 1 or inv[0][0] != "this." + cname:
+                    raise NotClosedForm("the coefficient matrix %s of the evaluation lists is not set_inverse(<nodal matrix>) (%s)" % (cname, [x[0] for x in inv]))
+                M = inv[0][1]
+                bary = [sx.num(Loc("this", (b[5:].split("[")[0], int(re.search(r"\[(\d+)\]$", b).group(1))))).const_value() for b in bsyms]
+                if any(b is None for b in bary):
+                    raise NotClosedForm("shift %s of the monomial basis is not determined by prepare()" % bsyms)
+                groups = {}
+                for s2, (c, i, j) in enumerate(layout):
+                    groups.setdefault((c, i), []).append((j, s2))
+                for (c, i), dofs in sorted(groups.items()):
+                    if c == 0:
+                        if code == 1:
+                            continue
+                        key = "%s/%s/vertex%d" % (inst, tname, i)
+                        forms = functional(0, lambda t, i=i: (V[i], []))
+                    elif c == 1:
+                        a, b = everts[i]
+                        A, B = (V[a], V[b]) if code == 0 else (V[b], V[a])
+                        key = "%s/%s/edge%d/%s" % (inst, tname, i, "same-orientation" if code == 0 else "reversed")
+                        forms = functional(1, lambda t, A=A, B=B: ([A[x] + t[0] * (B[x] - A[x]) for x in range(2)], [[B[x] - A[x]] for x in range(2)]))
+                    else:
+                        raise NotClosedForm("dofs on entities of dimension %d" % c)
+                    problems = []
+                    for j, s2 in dofs:
+                        if j >= len(forms):
+                            problems.append("dof %d is ordinal %d of an entity whose node functional assigns %d dofs" % (s2, j, len(forms)))
+                            continue
+                        for k in range(n):
+                            got = M.get((k, s2), Poly.const(0))
+                            got = got.const_value() if isinstance(got, Poly) else None
+                            want = apply(forms[j], mono[k], bary)
+                            if got is None or got != want:
+                                problems.append("nodal matrix entry (monomial %d = %s, dof %d) = %s, the node functional of dof %d (point %s, form %s) gives %s" % (
+                                    k, mono[k], s2, got, s2, tuple(map(str, forms[j][0])), {a2: str(b2) for a2, b2 in forms[j][1].items()}, want))
+                                break
+                    ck.ob(rule, tag + key, not problems, "; ".join(problems[:2]) if problems else "%d columns = node functional applied to the %d monomials" % (len(dofs), n), fp.file, fp.line)
+            except NotClosedForm as e:
+                ck.incomplete(rule, "%s%s/%s/code%d: %s" % (tag, inst, tname, code, e))
 
 
 def _tag_table(facts, enum):
